@@ -88,9 +88,14 @@ func runHeaderSim(env *RunEnv) {
 			case 3: // another header version
 				st.raw = MakeHdr(ts, 7, 0, 0, appv)
 				st.raw[16] = byte(1 + t.Choose("hs-version", 255))
-			case 4: // claims extension blocks that are not there
-				st.raw = MakeHdr(ts, 7, 0, 0, []byte("x"))
-				binary.BigEndian.PutUint16(st.raw[22:24], uint16(1+t.Choose("hs-claim", 9000)))
+			case 4: // claims extension blocks that are not (all) there
+				tail := [][]byte{nil, []byte("x"), []byte("1234567"), []byte("12345678"), []byte("123456789abcdef")}[t.Choose("hs-claim-tail", 5)]
+				st.raw = MakeHdr(ts, 7, 0, 0, tail)
+				claim := []int{1, 2, 3, 9000, 65535}[t.Choose("hs-claim", 5)]
+				if 8*claim <= len(tail) {
+					claim = len(tail)/8 + 1
+				}
+				binary.BigEndian.PutUint16(st.raw[22:24], uint16(claim))
 			case 5: // plain application bytes without any header
 				st.raw = []byte("plain application value, thirty-odd bytes long")[:8+t.Choose("hs-plain", 38)]
 			case 6: // a huge timestamp in front of garbage
